@@ -38,10 +38,44 @@ func VerifC37Rearm() {
 	handled := 0
 	_ = cl.Read(func(cl *Client, pk packets.Packet) error { handled++; return nil })
 	vAssert("all-packets-handled", handled == n)
-	vAssert("deadline-rearmed-before-every-read", vConnDeadlines(c) == n+1)
-	for i := 1; i <= n; i++ {
+	// (how often the deadline is re-armed is the implementation's business; that it is far enough ahead whenever
+	// the connection waits is VerifC37Partial's assertion)
+	vAssert("deadline-armed", vConnDeadlines(c) >= 1)
+	for i := 1; i < vConnDeadlines(c); i++ {
 		// every re-armed deadline is the same distance ahead as the first (whose value VerifC37Deadline decides)
 		vAssert("rearmed-deadline-same-distance", vConnDeadlineNs(c, i) == vConnDeadlineNs(c, 0))
 	}
+	vReach("end")
+}
+
+// VerifC37Partial: the inactivity limit counts from the last packet received, also when the bytes that follow
+// it in the same segment are only the beginning of the next packet. The connection reads a PINGREQ that arrives
+// A seconds after the previous read together with the first byte of another one; while it waits for the rest,
+// the deadline in force must lie at least 1.5 x K after that PINGREQ's arrival.
+func VerifC37Partial() {
+	s, _ := vNewServer(nil)
+	c := vConnLive()
+	cl := s.NewClient(c, "t1", "c1", false)
+	k := []uint16{10, 60}[vChoose(2)]
+	cl.ParseConnect("t1", packets.Packet{ProtocolVersion: 4, Connect: packets.ConnectParams{Keepalive: k, ClientIdentifier: "c1"}})
+	handled := 0
+	go func() { _ = cl.Read(func(cl *Client, pk packets.Packet) error { handled++; return nil }) }()
+	vDrain()
+	vAssert("deadline-armed-before-the-first-read", vConnDeadlines(c) >= 1)
+	vClockAdvance(int64(1 + vChoose(5))) // A seconds of silence, less than 1.5 x K
+	tail := vChoose(2)                   // 0: a whole PINGREQ only; 1: plus the first byte of the next packet
+	if tail == 0 {
+		vConnFeed(c, []byte{0xC0, 0x00})
+	} else {
+		vConnFeed(c, []byte{0xC0, 0x00, 0xC0})
+	}
+	vDrain()
+	vAssert("packet-handled", handled == 1)
+	n := vConnDeadlines(c)
+	d := vConnDeadlineNs(c, n-1) // distance of the deadline in force from now (= the arrival of that PINGREQ)
+	K := int64(k) * 1000000000
+	vAssert("connection-stays-open-1.5K-after-the-last-packet", 2*d >= 3*K)
+	vConnEOF(c)
+	vDrain()
 	vReach("end")
 }
